@@ -405,11 +405,18 @@ def judge_resp(sim, ev, rec):
         sim.count("oracle.%s.%s%s" % (p_, r_, ".enc" if e_ else ""))
 
     # ---------------- verdicts
+    # (signed with the sender's configured key - or, during a key roll-over, with any key whose certificate the
+    # SP's metadata lists for signing under the sender's name)
+    known_signing = (sp.md_certs_for(m["issuer"], "signing") or []) if m["issuer"] else []
     faultless = (not rec.get("mut") and not rec.get("tf") and not rec.get("dup")
                  and not asked.get("p", {}).get("handover")
-                 and asked.get("signing_key") == ("k%d" % sim.truth[rec["from"]]["key"]))
+                 and (asked.get("signing_key") == ("k%d" % sim.truth[rec["from"]]["key"])
+                      or asked.get("signing_key") in known_signing))
     solicited = (irt in outstanding) if browser else True
-    acc_required = bool(faultless and not hits and comfortable and not tunspec and addr_ok and all_sigs_fine
+    # ("no genuine tool success" only counts against an acceptance: without injected faults it cannot justify
+    # a refusal)
+    blocking = [h_ for h_ in hits if not h_[1].startswith("no-genuine-")]
+    acc_required = bool(faultless and not blocking and comfortable and not tunspec and addr_ok and all_sigs_fine
                         and eff and undec == 0 and len(eff) == 1
                         and (solicited or (allow_unsol and irt is None)))
     F["accept_required"] = acc_required
